@@ -46,14 +46,39 @@ type AVal struct {
 	Fn    *ssa.Function
 	Bind  []AVal
 	Tup   []AVal
-	Dyn   types.Type // dynamic type when wrapped into an interface
-	Src   ssa.Value  // where an unknown came from
-	Tag   string     // symbolic name given by the client
-	Any   interface{} // an opaque statically known value (e.g. a *unicode.RangeTable read off its literal)
+	Dyn   types.Type             // dynamic type when wrapped into an interface
+	Src   ssa.Value              // where an unknown came from
+	Tag   string                 // symbolic name given by the client
+	Any   interface{}            // an opaque statically known value (e.g. a *unicode.RangeTable read off its literal)
 	Facts map[*ssa.Function]bool // outcomes of pure predicates already decided for this unknown on the path
+	Expr  *AExpr                 // how an unknown was computed from other values (operators, external calls)
 }
 
-func aUnknown(src ssa.Value) AVal { return AVal{Kind: avUnknown, Src: src} }
+// AExpr: a symbolic expression over abstract values.
+type AExpr struct {
+	Op   token.Token // binary/unary operator, or token.ILLEGAL for a call
+	Call string      // callee for calls
+	Args []AVal
+}
+
+func (e *AExpr) String() string {
+	if e == nil {
+		return ""
+	}
+	var p []string
+	for _, a := range e.Args {
+		p = append(p, a.String())
+	}
+	if e.Call != "" {
+		return e.Call + "(" + strings.Join(p, ", ") + ")"
+	}
+	if len(p) == 2 {
+		return "(" + p[0] + " " + e.Op.String() + " " + p[1] + ")"
+	}
+	return e.Op.String() + strings.Join(p, ",")
+}
+
+func aUnknown(src ssa.Value) AVal  { return AVal{Kind: avUnknown, Src: src} }
 func aConst(c constant.Value) AVal { return AVal{Kind: avConst, C: c} }
 func aInt(k int64) AVal            { return aConst(constant.MakeInt64(k)) }
 func aBool(b bool) AVal            { return aConst(constant.MakeBool(b)) }
@@ -104,6 +129,9 @@ func (v AVal) String() string {
 	if v.Tag != "" {
 		return "?" + v.Tag
 	}
+	if v.Expr != nil {
+		return v.Expr.String()
+	}
 	return "?"
 }
 
@@ -112,7 +140,7 @@ type AObj struct {
 	ID     int
 	Type   types.Type
 	Fields map[int]AVal
-	Len    int  // number of known elements for slices/arrays (-1 unknown)
+	Len    int // number of known elements for slices/arrays (-1 unknown)
 	Site   ssa.Value
 	Extern bool // stands for memory not allocated on the path (receiver, parameters)
 }
@@ -383,6 +411,20 @@ blocks:
 				return []AOutcome{{St: st, Panicked: true, At: x}}
 			case *ssa.RunDefers, *ssa.Defer, *ssa.Go, *ssa.Send, *ssa.MapUpdate:
 				// not modelled
+			case *ssa.IndexAddr:
+				// a constant index beyond the known length of the indexed object: run-time panic
+				p := fr.get(ai, st, x.X)
+				if k, ok := fr.get(ai, st, x.Index).Int(); ok && (p.Kind == avPtr && p.Field < 0 || p.Kind == avNil) {
+					n := 0
+					if p.Kind == avPtr {
+						n = st.obj(p.Obj).Len
+					}
+					if n >= 0 && (k < 0 || int(k) >= n) {
+						st.Trace = append(st.Trace, AEvent{Kind: "panic", Site: x, Name: "index out of range", Depth: st.depth})
+						return []AOutcome{{St: st, Panicked: true, At: x}}
+					}
+				}
+				fr.env[x] = ai.eval(fr, st, x)
 			case *ssa.Store:
 				ai.store(st, fr.get(ai, st, x.Addr), fr.get(ai, st, x.Val))
 			case ssa.CallInstruction:
@@ -627,7 +669,9 @@ func (ai *AInterp) eval(fr *aFrame, st *AState, v ssa.Value) AVal {
 				}
 			}
 		}
-		return aUnknown(x)
+		u := aUnknown(x)
+		u.Expr = &AExpr{Op: x.Op, Args: []AVal{a, b}}
+		return u
 	case *ssa.Convert:
 		a := fr.get(ai, st, x.X)
 		if a.isConst() {
@@ -835,7 +879,11 @@ func (ai *AInterp) external(callee *ssa.Function, args []AVal, v ssa.Value) AVal
 			}
 		}
 	}
-	return aUnknown(v)
+	u := aUnknown(v)
+	if callee != nil {
+		u.Expr = &AExpr{Call: callee.String(), Args: args}
+	}
+	return u
 }
 
 func (ai *AInterp) builtin(st *AState, name string, args []AVal, site ssa.CallInstruction) AVal {
